@@ -91,11 +91,9 @@ def u_stack(c):
         c.prove("push/occurrences", z3.And(*[count_of(i) == ks[i].t + occ[i] for i in range(3)]))
     elif op == 1:
         # requires t in Act
-        c.assume(ic.t >= 1)
+        c.require(ic.t >= 1)
         for i in range(3):
-            c.assume(ks[i].t >= occ[i])
-            if occ[i] and i not in present:
-                raise_path = True
+            c.require(ks[i].t >= occ[i])
         st, _ = run(it, it.getattr(stk, "pop"), [t])
         c.prove("pop/no-raise", st == "ok")
         c.prove("pop/count", it._arith(stk.fields["instrument_count"]) == ic.t - 1)
@@ -157,9 +155,9 @@ def u_synced(c):
     t = _choose_tuple(c, els)
     occ = [sum(1 for x in t if x is e) for e in els]
     if op == 1:
-        c.assume(ic.t >= 1)
+        c.require(ic.t >= 1)
         for i in range(3):
-            c.assume(ks[i].t >= occ[i])
+            c.require(ks[i].t >= occ[i])
     st, _ = run(it, it.getattr(stk, "push" if op == 0 else "pop"), [t])
     c.prove("no-raise", st == "ok")
     new_ic = ic.t + (1 if op == 0 else -1)
